@@ -36,7 +36,7 @@ claimed = {
    note="Trusts the responder table in c08Model (from the property text / E37). Two scheduling-dependent answers are accepted either way and documented (duplicate Select.rsp racing transaction close; S9F1 gated at write time).",
    technique="reference-model monitor: independent E37 responder FSM vs barrier-fenced outbound frame log of a real connection"),
  "C09": dict(level=F,
-   text="40 (quick) / 480 (thorough) multi-generation histories: each generation ended by one of the 7 drop kinds (peer FIN, RST, stall+write timeout, Close+reopen, linktest failure, T7, T8 - all kinds in every shard) while 8 senders keep sending sync/async/W-bit messages with unique tokens; every frame read by generation G's peer must belong to a call that was open while G existed, replies must carry the tag of the generation that read the primary, waiters must be released (never T3=30 s), and the previous generation's open system bytes replayed by the next peer must not complete anything; senders stalled right after their write (hook) are followed across the drop, and a primary observed on an older generation's peer log while its caller is still waiting is a dead-generation waiter. A SECS-I phase parks a sender behind the line engine's inline handler (contention yield) and ends the generation by Close: the sender must be released with the connection-closed error. Race build." + HELD,
+   text="40 (quick) / 480 (thorough) multi-generation histories: each generation ended by one of the 7 drop kinds (peer FIN, RST, stall+write timeout, Close+reopen, linktest failure, T7, T8 - all kinds in every shard) while 8 senders keep sending sync/async/W-bit messages with unique tokens; every frame read by generation G's peer must belong to a call that was open while G existed, replies must carry the tag of the generation that read the primary, waiters must be released (never T3=30 s), and the previous generation's open system bytes replayed by the next peer must not complete anything; senders stalled right after their write (hook) are followed across the drop, and a primary observed on an older generation's peer log while its caller is still waiting is a dead-generation waiter. A SECS-I phase parks a sender behind the line engine's inline handler (contention yield) and ends the generation by Close: the sender must be released with the connection-closed error; its HSMS-SS counterpart wedges the receive path in a data handler while a W-bit sender waits and ends the generation by Close or by a linktest failure. Race build." + HELD,
    note="The hsmsss phase carries the generation-tag oracle; the SECS-I phase covers only the parked-waiter release (SECS-I line faults are C17/C18). The drop instant relative to each send is sampled, not enumerated.",
    technique="generation-tagged token monitor over per-generation peer logs under the race detector with delay injection"),
  "C10": dict(level=E,
